@@ -76,6 +76,13 @@ func vC05SlowReaderBacklog(r *vRand) {
 	for i := 0; i < calls; i++ {
 		ids[send(i, body)] = 0
 	}
+	// while the responses to those wait for the slow reader, further (small) requests keep coming: their responses join
+	// the queue at moments spread over the whole stall
+	const extra = 10
+	for i := 0; i < extra; i++ {
+		time.Sleep(120 * time.Millisecond)
+		ids[send(100+i, []byte("small"))] = 0
+	}
 	collect := func(until func() bool, dl time.Duration) string {
 		t := time.After(dl)
 		for !until() {
@@ -99,7 +106,7 @@ func vC05SlowReaderBacklog(r *vRand) {
 		}
 		return true
 	}
-	if e := collect(all, time.Duration(calls)*period+6*time.Second); e != "" {
+	if e := collect(all, time.Duration(calls+extra)*period+8*time.Second); e != "" {
 		info["outcome"] = "the session did not stay up: " + e
 		return
 	}
@@ -122,9 +129,99 @@ func vC05SlowReaderBacklog(r *vRand) {
 	}
 	info["unanswered"], info["answered_twice"] = missing, dup
 	if missing > 0 {
-		c.Fail = fmt.Sprintf("request-never-answered-on-a-live-session/%d-of-%d", missing, calls)
+		c.Fail = fmt.Sprintf("request-never-answered-on-a-live-session/%d-of-%d", missing, calls+extra)
 		info["outcome"] = "the session is alive (the probe is answered) but requests whose responses waited in the queue got none"
 	} else if dup > 0 {
 		c.Fail = fmt.Sprintf("request-answered-twice/%d", dup)
+	}
+}
+
+// vC05StalledWriteQueue: the peer reads nothing while responses pile up behind a large one, then takes one response, then
+// more requests complete while the next large response is stalled, then it reads everything. Whatever the write pump does
+// with what waits for it, every request is answered by exactly one response frame. The write timeout is generous: the
+// session stays up throughout.
+func vC05StalledWriteQueue(r *vRand) {
+	skey, ckey := vGenKey(r), vGenKey(r)
+	ls := vStartLibServer(skey, []ed25519.PublicKey{ckey.Pub}, true, WithHTTPReadTimeout(5*time.Second, 8*time.Second))
+	defer vStop(ls.S, 5*time.Second)
+	info := map[string]interface{}{"outcome": "ok"}
+	c := vCase{Class: "stalled-write-queue", Sig: "stalled-write-queue", Info: info}
+	defer func() { vEmit(c) }()
+	d := websocket.Dialer{TLSClientConfig: vClientTLS(ckey, skey.Pub), HandshakeTimeout: 5 * time.Second,
+		NetDialContext: func(ctx context.Context, network, a string) (net.Conn, error) {
+			nc, err := (&net.Dialer{}).DialContext(ctx, network, a)
+			if err == nil {
+				_ = nc.(*net.TCPConn).SetReadBuffer(64 << 10)
+			}
+			return nc, err
+		}}
+	conn, _, err := d.Dial("wss://"+ls.Addr, http.Header{})
+	if err != nil {
+		c.Fail = "scenario-setup-failed"
+		return
+	}
+	defer conn.Close()
+	big := vPat(6<<20, 5, 1)
+	got := map[string]int{}
+	var order []string
+	n := 0
+	send := func(payload []byte) {
+		id := fmt.Sprintf("00000000-0000-4000-8000-%012d", n)
+		app, _ := proto.Marshal(vAppMsg(fmt.Sprint("q", n), payload, ""))
+		n++
+		got[id] = 0
+		_ = conn.WriteMessage(websocket.BinaryMessage, vFrame(&message.Message{Exchange: &message.Message_Request{Request: &message.Request{Method: "Echo", CallId: id, Payload: app}}}))
+		// its handler has run (the response is on its way to the write pump)
+		want := n
+		vWaitUntil(5*time.Second, func() bool { return len(ls.Impl.peek()) >= want })
+		time.Sleep(60 * time.Millisecond)
+	}
+	readOne := func(d time.Duration) bool {
+		conn.SetReadDeadline(time.Now().Add(d))
+		_, b, err := conn.ReadMessage()
+		if err != nil {
+			return false
+		}
+		m := &message.Message{}
+		if proto.Unmarshal(b, m) == nil && m.GetResponse() != nil {
+			got[m.GetResponse().GetCallId()]++
+			order = append(order, m.GetResponse().GetCallId()[30:])
+		}
+		return true
+	}
+	send(big)            // the write pump stalls on this response: nobody reads
+	send(big)            // two more complete meanwhile
+	send([]byte("two"))
+	if !readOne(8 * time.Second) { // the first response is taken: the pump goes on and stalls on the second large one
+		info["outcome"] = "the first response did not arrive: the scenario did not run as intended"
+		return
+	}
+	time.Sleep(300 * time.Millisecond)
+	send([]byte("three")) // two more complete during that stall
+	send([]byte("four"))
+	for readOne(3 * time.Second) {
+	}
+	missing, dup := 0, 0
+	for _, k := range got {
+		if k == 0 {
+			missing++
+		}
+		if k > 1 {
+			dup++
+		}
+	}
+	info["order"], info["unanswered"], info["answered_twice"] = order, missing, dup
+	if handled := len(ls.Impl.peek()); handled != n {
+		c.Fail = fmt.Sprintf("handler-runs-differ-from-requests/%d-for-%d", handled, n)
+	} else if dup > 0 {
+		c.Fail = fmt.Sprintf("request-answered-twice/%d", dup)
+	} else if missing > 0 {
+		// only a failure while the session is up: a probe must still be answered
+		send([]byte("probe"))
+		if readOne(3*time.Second) && got[fmt.Sprintf("00000000-0000-4000-8000-%012d", n-1)] == 1 {
+			c.Fail = fmt.Sprintf("request-never-answered-on-a-live-session/%d-of-%d", missing, n-1)
+		} else {
+			info["outcome"] = "the session did not stay up"
+		}
 	}
 }
